@@ -727,6 +727,10 @@ class SymExec:
             for st in states:
                 if a[2] is not None:
                     st.env[a[0]] = self.canon(st.env)(a[2])
+                    if a[0] in getattr(self, 'trace_locals', ()):
+                        # the rule wants to know what this local was bound to on this path (fields read through it are
+                        # named after the local, not after the value it holds)
+                        st.effects = st.effects + (('local:' + a[0], st.env[a[0]].key()),)
                 out.append(st)
             return out
         if k == 'assign':
